@@ -119,7 +119,7 @@ theorem migrate_ok_not_blocked {s s' : State} {frm to : Addr} {sigOk : Bool} (h 
 /-- the statement list of `MigrateAccount` and the handlers registered in the app wiring, as read from the source -/
 theorem handler_lists_from_code :
     Gen.C14.handlerOrder = ["check-record-from", "check-record-to", "check-from-account", "validate-all",
-                            "execute-all", "set-record"] ∧
+                            "ensure-to-account", "execute-all", "set-record"] ∧
     Gen.C14.migrateHandlers = ["NewBankMigrate", "NewDistrStakingMigrate", "NewGovMigrate"] := by decide
 
 /-- **`DistrStakingMigrate.Validate` as regenerated check list = the hand-written reading**: the five checks in source
@@ -291,7 +291,13 @@ theorem handler_program_as_modelled (s : State) (frm to : Addr) (sigOk : Bool) :
   have q13 : ("set-record" == "check-from-account") = false := by decide
   have q14 : ("set-record" == "validate-all") = false := by decide
   have q15 : ("set-record" == "execute-all") = false := by decide
-  simp only [runStmts, handlerStmt, q1, q2, q3, q4, q5, q6, q7, q8, q9, q10, q11, q12, q13, q14, q15,
+  have e1 : ("ensure-to-account" == "check-record-from") = false := by decide
+  have e2 : ("ensure-to-account" == "check-record-to") = false := by decide
+  have e3 : ("ensure-to-account" == "check-from-account") = false := by decide
+  have e4 : ("ensure-to-account" == "validate-all") = false := by decide
+  have e5 : ("ensure-to-account" == "execute-all") = false := by decide
+  have e6 : ("ensure-to-account" == "set-record") = false := by decide
+  simp only [runStmts, handlerStmt, q1, q2, q3, q4, q5, q6, q7, q8, q9, q10, q11, q12, q13, q14, q15, e1, e2, e3, e4, e5, e6,
     beq_self_eq_true, Bool.false_eq_true, ↓reduceIte, List.findSome?, execAll,
     (handlerValidate_code _ frm to).1, (handlerValidate_code _ frm to).2.1, (handlerValidate_code _ frm to).2.2,
     (handlerExecute_code cfg _ frm to).1, (handlerExecute_code cfg _ frm to).2.1, (handlerExecute_code cfg _ frm to).2.2,
